@@ -9,7 +9,7 @@
 //   grid.hsv / grid.hsl   (h,s,v|l) boundary grid -> rgb8 / rgb32f against the textbook formula
 //   hue-periodic.<space>  hue 1 against hue 0 (own case: the hsv converter reads uninitialised
 //                         channels for hue == 1, anything may follow under the sanitizers)
-//   gray-alpha, gray-to-rgba, luminance, cmyka, cmyka-chan
+//   luminance, cmyka, cmyka-chan        (gray-alpha and gray-to-rgba: harness/c18_gray_rgba.cpp)
 // Every case class names the colour space so that a fatal sanitizer report is attributed to it.
 // See DESIGN.md section 5, C18.
 #include <boost/gil.hpp>
@@ -515,20 +515,7 @@ int main(int argc, char** argv) {
     roundtrip<sp_y709, gil::bgr8_pixel_t>("rt-bgr", false);
     cmyka_case();
     cmyka_channels_case();
-    gray_alpha_case<gil::gray_alpha8_pixel_t, gil::rgba8_pixel_t>("gray_alpha8", "rgba8");
-    gray_alpha_case<gil::gray_alpha8_pixel_t, gil::bgra8_pixel_t>("gray_alpha8", "bgra8");
-    gray_alpha_case<gil::gray_alpha8_pixel_t, gil::argb8_pixel_t>("gray_alpha8", "argb8");
-    // (alpha_gray8_pixel_t cannot be used: alpha_gray_layout_t is declared over gray_alpha_layout_t, a layout,
-    //  instead of the colour space gray_alpha_t, so get_color/color_convert do not instantiate for it)
-    gray_alpha_case<gil::gray_alpha8_pixel_t, gil::rgba16_pixel_t>("gray_alpha8", "rgba16");
-    gray_alpha_case<gil::gray_alpha8_pixel_t, gil::rgba32f_pixel_t>("gray_alpha8", "rgba32f");
-    gray_alpha_case<gil::gray_alpha16_pixel_t, gil::rgba16_pixel_t>("gray_alpha16", "rgba16");
-    gray_alpha_case<gil::gray_alpha16_pixel_t, gil::rgba8_pixel_t>("gray_alpha16", "rgba8");
-    gray_to_rgba_case<gil::gray8_pixel_t, gil::rgba8_pixel_t>("gray8", "rgba8");
-    gray_to_rgba_case<gil::gray8_pixel_t, gil::abgr8_pixel_t>("gray8", "abgr8");
-    gray_to_rgba_case<gil::gray8_pixel_t, gil::rgba16_pixel_t>("gray8", "rgba16");
-    gray_to_rgba_case<gil::gray16_pixel_t, gil::rgba16_pixel_t>("gray16", "rgba16");
-    gray_to_rgba_case<gil::gray16_pixel_t, gil::rgba8_pixel_t>("gray16", "rgba8");
+    // gray_alpha -> rgba and gray -> rgba: every destination the converters accept, in harness/c18_gray_rgba.cpp
     luminance_case();
 #endif
     return vh::finish();
